@@ -3,7 +3,7 @@
    the result and rendering again gives the same text. *)
 From Boltons Require Import Lib.Prelude Lib.C06_Text Spec.C06_Spec Model.C06_Model
   Proofs.C06_Codec Proofs.C06_Quote Proofs.C06_Lists Proofs.C06_Round Proofs.C06_Shape
-  Proofs.C06_QuoteMin Proofs.C06_Parts Proofs.C06_RoundMin Proofs.C06_NoAuth.
+  Proofs.C06_QuoteMin Proofs.C06_Parts Proofs.C06_RoundMin Proofs.C06_NoAuth Proofs.C06_NoAuthMin.
 Open Scope N_scope.
 
 Theorem fixpoint_full_parsed T O :
@@ -82,4 +82,22 @@ Proof.
   clear S1'.
   destruct u as [scheme sep user pw fam host port path q frag]. cbn in *. subst user pw host.
   apply (fixpoint_full_na T O TOK scheme sep fam port path q frag S1 N0 IDEM NEp Fp Fq Sf NS).
+Qed.
+
+Theorem fixpoint_min_parsed_na T O :
+  tables_ok T = true -> delims_ok T = true ->
+  forall t u,
+  url_init T O t = MOk u ->
+  u_user u = [] -> u_pass u = [] -> u_host u = [] -> u_path u <> [] ->
+  Forall nopct (u_path u) -> Forall pair_okm (u_query u) -> nopct (u_frag u) ->
+  (u_scheme u = [] -> noscheme (join [47] (map (quote_min T CPath) (u_path u))) = true) ->
+  forall m u1, to_text T O false u = MOk m -> m <> [] -> url_init T O m = MOk u1 -> to_text T O false u1 = MOk m.
+Proof.
+  intros TOK DOK t u P EU EP EH NEp Fp Fq Sf NS.
+  destruct (parsed_shape T O t u P) as [S1' _].
+  assert (S1 : forallb (not_in [58; 47; 63; 35]) (u_scheme u) = true).
+  { destruct (u_scheme u) as [|c0 cr] eqn:ES; [reflexivity|]. apply S1'. discriminate. }
+  clear S1'.
+  destruct u as [scheme sep user pw fam host port path q frag]. cbn in *. subst user pw host.
+  apply (fixpoint_min_na T O TOK DOK scheme sep fam port path q frag S1 NEp Fp Fq Sf NS).
 Qed.
